@@ -99,6 +99,17 @@ class C04(Hist1Prop):
                     ws = [rs(rng.choice([1, 2, 0.5, 0.25])) for _ in vs]
                 steps.append({"t": "fill_n", "vs": gen1.enc_vals(vs), "ws": ws})
         src = {"binning": b, "steps": steps, "w": rs(w)}
+        if rng.random() < 0.2:
+            # the same history with float32 data (numpy scalars for fill, float32 arrays for fill_n): every value is first
+            # rounded to float32, so that it is the same number on both sides; physt must locate it with double precision
+            vk = "float32"
+            for s in steps:
+                if s["t"] == "fill":
+                    s["v"] = rs(float(np.float32(float(Fraction(s["v"])))))
+                else:
+                    s["vs"] = gen1.enc_vals([None if v is None else float(np.float32(float(Fraction(v)))) for v in s["vs"]])
+                s["vk"] = vk
+            src["vk"] = vk
         return self.build(src)
 
     @staticmethod
@@ -112,8 +123,12 @@ class C04(Hist1Prop):
             else:
                 ops.append({"op": "fill_n", "h": 0, "vs": s["vs"], "ws": s["ws"], "wkind": "float64"})
                 allv += [v for v in s["vs"] if v is not None]
+            if s.get("vk"):
+                ops[-1]["vk"] = s["vk"]
         for v in allv:
             ops.append({"op": "find_bin", "h": 0, "v": v})
+            if src.get("vk"):
+                ops[-1]["vk"] = src["vk"]
         return {"kind": "hist1", "fuel": 64, "ops": ops, "tags": [], "src": src}
 
     def shrink_candidates(self, case):
